@@ -29,7 +29,7 @@ for p in props:
         "level_claimed": {
             "category": getattr(m, "LEVEL", "other"),
             "text": getattr(m, "CLAIM", getattr(m, "EXPLANATION", "")),
-            "design_ref": "DESIGN.md section 4 (plan) and section 10 (as built; rule families and take-overs in 10.16-10.21), " + pid,
+            "design_ref": "DESIGN.md section 4 (plan) and section 10 (as built; rule families and take-overs in 10.16-10.22), " + pid,
         },
         "level_note": getattr(m, "NOT_DECIDED", "") + " Trusted: rustc nightly MIR lowering equals the stable build's semantics; library models in analysis/summaries*.py; " + "; ".join(getattr(m, "ASSUMPTIONS", [])),
         "technique": getattr(m, "TECHNIQUE", "static analysis: abstract interpretation / table extraction over rustc MIR"),
